@@ -1,8 +1,16 @@
 #!/bin/sh
 # Offline set-up after a fresh restore: pre-build the three flavours of the
-# working tree so the first check does not pay for it.  Checks rebuild
-# incrementally themselves; this is only a cache warm-up.
+# working tree (plain / gcc ASan+UBSan / gcc TSan, each with its own
+# instrumented cyarray) so the first check does not pay for it.  Checks
+# re-synchronise and rebuild incrementally themselves; this is a cache warm-up
+# only and nothing registered in MANIFEST.json depends on its output existing.
 cd "$(dirname "$0")"
 export PIP_NO_INDEX=1
 tools/vbuild.py plain || exit 1
+tools/vbuild.py asan &
+A=$!
+tools/vbuild.py tsan &
+T=$!
+wait $A || exit 1
+wait $T || exit 1
 exit 0
